@@ -418,11 +418,36 @@ def check_raw(ctx, rep, tier):
     rep.floor('character-less keys', len(raw52), 52)
     alias = {kc[k]: kc[v] for k, v in K['numpad_alias'].items()}
     newkeys = [n for n in ctx.keycodes if n not in K.get('keycodes_124', ctx.keycodes)]
+    prefixed = set()
+    if newkeys:
+        # On PC keyboards every character key has an unprefixed scancode (the only prefixed keys that type are keypad
+        # '/' and keypad Enter); keys sent with an E0/E1 prefix are navigation, media, system and power keys.  A key
+        # added after the reference was frozen is classified by the sequences the crate's own decoders assign to it.
+        try:
+            from .rules_scancode import SetModel, tables_of
+            from .extract import scancode_impls
+            for self_str, pth in scancode_impls(ctx):
+                sm = SetModel(ctx, self_str, pth)
+                if sm.kind:
+                    for pfx, tab in tables_of(sm, ctx).items():
+                        for code, (kname, _st) in tab.items():
+                            if kname in newkeys and pfx in ('E0', 'E1'):
+                                prefixed.add(kname)
+        except Undecided as u:
+            rep.note('new keys could not be classified: %s' % u)
     for name, t in sorted(tabs.items()):
         for n in newkeys:
-            if any(t.get(kc[n], m, h) < RAW_BASE for m in (B.NUM, B.NUM | B.LS) for h in (B.MAP, B.IGN)):
-                rep.note('key %s was added after the reference was frozen and types a character on %s; whether it is a '
-                         'character key or a media/system key cannot be decided from the frozen key classes (not judged)' % (n, name))
+            types = any(t.get(kc[n], m, h) < RAW_BASE for m in (B.NUM, B.NUM | B.LS) for h in (B.MAP, B.IGN))
+            if types and n in prefixed:
+                rep.ob('new prefixed (non-character) keys are raw', 1, 0)
+                rep.finding('C16 layout=%s key=%s new-prefixed-key-types-a-character' % (name, n),
+                            'key %s is sent with an E0/E1 prefix (a navigation/media/system key, not a character key) but types %s on %s' % (
+                                n, show_out(ctx, t.get(kc[n], B.NUM, B.IGN)), name))
+            elif types:
+                rep.note('key %s was added after the reference was frozen and types a character on %s; it has an unprefixed scancode, '
+                         'so it may be a character key (not judged)' % (n, name))
+            elif n in prefixed:
+                rep.ob('new prefixed (non-character) keys are raw', 1)
         for k in range(t.nk):
             kname = ctx.keycodes[k]
             must_raw = k in raw52
